@@ -119,6 +119,14 @@ func (c *Ctx) globalWrites(pkgs ...string) (writes []globalWrite, globals []*ssa
 						if n == "builtin:append" {
 							writesFirst = false
 						}
+						// mutating methods of synchronised containers and locks on package-level variables:
+						// shared mutable state, even if race-free
+						if strings.HasPrefix(n, "(*sync.Map).") && !strings.HasSuffix(n, ".Load") && !strings.HasSuffix(n, ".Range") {
+							writesFirst = true
+						}
+						if strings.HasPrefix(n, "(*sync.Mutex).") || strings.HasPrefix(n, "(*sync.RWMutex).") || strings.HasPrefix(n, "(*sync.Once).") || strings.HasPrefix(n, "(*sync/atomic.") {
+							writesFirst = true
+						}
 						if writesFirst && len(args) > 0 {
 							if g := fromGlobal(args[0]); g != nil {
 								writes = append(writes, globalWrite{f, x, g, n + " on " + org(args[0])})
